@@ -258,3 +258,12 @@ Qed.
 
 Lemma uniq_id l : NoDup l -> uniq l = l.
 Proof. intros H. apply uniq_aux_id; auto. Qed.
+
+Lemma NoDup_map_filter {A B} (f : A -> B) (p : A -> bool) (l : list A) :
+  NoDup (map f l) -> NoDup (map f (filter p l)).
+Proof.
+  induction l as [|x l IH]; cbn [map filter]; intros H; [constructor|].
+  inversion H as [|? ? Hn Hnd]; subst. destruct (p x); cbn [map]; [|auto].
+  constructor; [|auto]. intros Hc. apply Hn. apply in_map_iff in Hc. destruct Hc as [y [Hy Hin]].
+  apply filter_In in Hin. apply in_map_iff. exists y. tauto.
+Qed.
